@@ -4,11 +4,17 @@ The real `Loader(options)` (built on a scratch workspace the way lian builds it)
   (a) all histories of <= d operations (save / get / export / export_indexing / restore-into-a-fresh-Loader) over
       ids {1,2,3} with three contents per id (two non-empty, one empty), id-symmetry reduced, under several
       item-cache / bundle-cache / MAX_ROWS configurations (bounded exhaustive),
-  (b) seeded random longer histories over the full configuration grid,
-  (c) histories with an injected write fault (n-th DataFrame.to_feather raises, or the bundle path is occupied),
-  (d) real `run`/`semantic` analyses of small programs whose live loader is compared item by item with a fresh
-      `Loader(options).restore()`, with LRUCache / GeneralLoader post-conditions switched on and every exception
-      swallowed by DataModel.save recorded.
+  (b) seeded random longer histories over the full 36-point configuration grid,
+  (c) save / export / restore histories for the in-memory map loaders (one-to-many maps, call graph, call paths,
+      entry points, summaries, import/type graph ...) through the public Loader API,
+  (d) histories with one injected write fault (n-th DataFrame.to_feather raises ENOSPC, or the target path is
+      occupied by a directory so that the native writer fails): the failure must reach the caller as an exception or
+      as a printed diagnostic carrying its message,
+  (e) real `run`/`semantic` analyses of small Python/JavaScript/Java programs (with and without --enable-p2, default
+      and tight cache/bundle configuration): every item of every GeneralLoader member is compared between what its
+      last save() received, the live loader and a fresh `Loader(options).restore()`; LRUCache / GeneralLoader
+      post-conditions (icontract) stay on and count their evaluations; every exception swallowed by DataModel.save
+      is recorded.
 The oracle is a dict id -> last saved content compared through canonical forms computed by lib/monitors/loader.py from
 the objects themselves; every history closes with: read all, export, export_indexing, independent pandas read of the
 index and bundle files, read all again, fresh-loader read of all."""
@@ -30,7 +36,10 @@ GRID = [(a, b, c) for a in (1, 2, 3) for b in (1, 2) for c in (3, 4, 5, 6, 7, 8)
 VARIANTS = ("A", "B", "E")
 
 
-def enum_histories(depth, variants=VARIANTS, nids=3):
+# ---------------------------------------------------------------------------------------------------
+# history generation
+
+def enum_histories(depth, variants=VARIANTS, nids=3, extra_ops=("export", "index", "restore"), reads=True):
     """All operation sequences of length 1..depth, ids introduced in order (id symmetry), no read of a never-saved id."""
     out = []
 
@@ -42,9 +51,10 @@ def enum_histories(depth, variants=VARIANTS, nids=3):
         for i in range(1, min(used + 1, nids) + 1):
             for v in variants:
                 rec(h + [["save", i, v]], max(used, i))
-        for i in range(1, used + 1):
-            rec(h + [["get", i]], used)
-        for k in ("export", "index", "restore"):
+        if reads:
+            for i in range(1, used + 1):
+                rec(h + [["get", i]], used)
+        for k in extra_ops:
             rec(h + [[k]], used)
     rec([], 0)
     return out
@@ -67,12 +77,27 @@ def random_history(rng, n):
     return h
 
 
-# representative instance per loader class for the exhaustive part; the other instances get the smoke histories
+def random_history_map(rng, n, mf):
+    h = []
+    ids = (1,) if mf.single else lmon.IDS
+    vs = ("A", "B", "E") if mf.empties else ("A", "B")
+    for _ in range(n):
+        r = rng.random()
+        if r < 0.6:
+            h.append(["save", rng.choice(ids), rng.choice(vs)])
+        elif r < 0.8:
+            h.append(["export"])
+        else:
+            h.append(["restore"])
+    return h
+
+
 def class_of(name):
     return name.split("[")[0]
 
 
 def representatives():
+    """One instance per loader class for the exhaustive part; the remaining instances get smoke + random histories."""
     seen, reps, rest = set(), [], []
     prefer = {"BitVectorManagerLoader": "BitVectorManagerLoader[state_p3]", "StmtStatusLoader": "StmtStatusLoader[p3]",
               "SymbolStateSpaceLoader": "SymbolStateSpaceLoader[p3]", "MethodSymbolToDefinedLoader": "MethodSymbolToDefinedLoader[p3]",
@@ -90,24 +115,65 @@ def representatives():
 
 DEEP = ["CFGLoader", "StmtStatusLoader[p3]", "UnitGIRLoader", "CalleeParameterMapping[p3]"]
 
+FAULT_HISTORIES = [
+    [["save", 1, "A"], ["save", 2, "B"], ["save", 3, "A"]],
+    [["save", 1, "A"], ["export"], ["save", 1, "B"], ["get", 1], ["save", 2, "B"]],
+]
+
+REAL_PROGRAMS = {
+    "python": {
+        "a.py": "import b\nfrom b import helper\n\nclass A:\n    def __init__(self, v):\n        self.v = v\n        self.items = [v, 2]\n    def get(self):\n        return self.v\n\ndef f(a, b=2, *rest, **kw):\n    t = 0\n    for i in [1, 2, 3]:\n        if i > a:\n            t = t + i\n        else:\n            t = t - b\n    return t\n\ndef g():\n    o = A(f(1))\n    d = {'k': o.get()}\n    return helper(d['k'], 3, 4, z=5)\n\nr = g()\n",
+        "b.py": "def helper(x, *more, **named):\n    y = x\n    return y\n\ndef unused():\n    pass\n"},
+    "javascript": {
+        "m.js": "function f(a, b) { let t = 0; for (let i = 0; i < 3; i++) { if (i > a) { t = t + i; } else { t = t - b; } } return t; }\nclass A { constructor(v) { this.v = v; } get() { return this.v; } }\nfunction g() { let o = new A(f(1, 2)); return o.get(); }\nlet r = g();\n"},
+    "java": {
+        "M.java": "public class M { int v; M(int v) { this.v = v; } int get() { return this.v; } static int f(int a, int b) { int t = 0; for (int i = 0; i < 3; i++) { if (i > a) { t = t + i; } else { t = t - b; } } return t; } public static void main(String[] x) { M o = new M(f(1, 2)); o.get(); } }\n"},
+}
+REAL_PROGRAMS_2 = {
+    "python": {
+        "p.py": "class Node:\n    def __init__(self, val, nxt=None):\n        self.val = val\n        self.nxt = nxt\n\ndef build(n):\n    head = None\n    i = 0\n    while i < n:\n        head = Node(i, head)\n        i = i + 1\n    return head\n\ndef total(node):\n    s = 0\n    while node:\n        s = s + node.val\n        node = node.nxt\n    return s\n\ndef main():\n    h = build(3)\n    fn = total\n    return fn(h)\n\nx = main()\n"},
+    "javascript": {
+        "q.js": "function mk(v) { return { val: v, get: function () { return this.val; } }; }\nfunction apply(f, x) { return f(x); }\nfunction inc(y) { return y + 1; }\nfunction main() { let o = mk(2); let r = apply(inc, o.get()); let arr = [1, r]; return arr[1]; }\nlet out = main();\n"},
+    "java": {
+        "P.java": "public class P { static int twice(int a) { return a + a; } static int pick(int[] xs, int i) { if (i < xs.length) { return xs[i]; } return 0; } public static void main(String[] x) { int[] v = new int[] {1, 2}; int r = twice(pick(v, 1)); } }\n"},
+}
+TIGHT_REAL = {"LRU_CACHE_CAPACITY": 2, "MIN_CACHE_CAPACITY": 1, "GIR_CACHE_CAPACITY": 1, "BUNDLE_CACHE_CAPACITY": 1, "MAX_ROWS": 40}
+
+
+# ---------------------------------------------------------------------------------------------------
+# children
+
+def _root():
+    root = os.path.join(common.scratch(), "c15_%d" % os.getpid())
+    os.makedirs(root, exist_ok=True)
+    return root
+
+
+def _keep(fails, sig, detail, case, short):
+    kept = sum(1 for x in fails if x[0] == sig)
+    if kept < 2 or (kept < 4 and short):
+        fails.append((sig, detail, case))
+
 
 def history_job(job):
-    """Child: run a chunk of histories for one family under one configuration."""
+    """Child: a chunk of histories for one GeneralLoader family under one configuration."""
     fam, cfg, hists = job["family"], tuple(job["cfg"]), job["histories"]
-    root = os.path.join(common.scratch(), "c15h_%d" % os.getpid())
-    os.makedirs(root, exist_ok=True)
-    stats = {"histories": 0, "reads": 0, "sources": {}, "multi_bundle": 0, "with_failure": 0, "by_sig": {}}
+    root = _root()
+    cs = lmon.install_contracts()
+    stats = {"histories": 0, "reads": 0, "sources": {}, "multi_bundle": 0, "auto_exports": 0, "by_sig": {}}
     fails = []
     for h in hists:
+        ncf = len(cs.failures)
         r = lmon.run_history(fam, cfg, h, root)
+        for name, detail in cs.failures[ncf:ncf + 3]:
+            r["failures"].append({"signature": "contract:" + name, "detail": detail, "id": 0, "step": -1})
         stats["histories"] += 1
         stats["reads"] += r["reads"]
+        stats["auto_exports"] += r["auto_exports"]
         for k, v in r["sources"].items():
             stats["sources"][k] = stats["sources"].get(k, 0) + v
         if r["bundles"] >= 2:
             stats["multi_bundle"] += 1
-        if r["failures"]:
-            stats["with_failure"] += 1
         seen = set()
         for f in r["failures"]:
             sig = f["signature"]
@@ -115,19 +181,139 @@ def history_job(job):
                 continue
             seen.add(sig)
             stats["by_sig"][sig] = stats["by_sig"].get(sig, 0) + 1
-            kept = sum(1 for x in fails if x[0] == sig)
-            if kept < 2 or (kept < 4 and len(h) <= 3):
-                fails.append((sig, f["detail"], {"kind": "history", "family": fam, "cfg": list(cfg), "history": h,
-                                                 "failing_item": f.get("id"), "step": f.get("step")}))
+            _keep(fails, sig, f["detail"], {"kind": "history", "family": fam, "cfg": list(cfg), "history": h,
+                                           "failing_item": f.get("id"), "step": f.get("step")}, len(h) <= 3)
+    stats["contracts"] = dict(cs.evaluated)
     return stats, fails
 
+
+def map_job(job):
+    fam, hists = job["family"], job["histories"]
+    root = _root()
+    stats = {"histories": 0, "reads": 0, "by_sig": {}}
+    fails = []
+    for h in hists:
+        r = lmon.run_map_history(fam, h, root)
+        stats["histories"] += 1
+        stats["reads"] += r["reads"]
+        seen = set()
+        for f in r["failures"]:
+            sig = f["signature"]
+            if sig in seen:
+                continue
+            seen.add(sig)
+            stats["by_sig"][sig] = stats["by_sig"].get(sig, 0) + 1
+            _keep(fails, sig, f["detail"], {"kind": "map", "family": fam, "history": h, "failing_item": f.get("id")}, len(h) <= 3)
+    return stats, fails
+
+
+def fault_job(job):
+    """Child: for one family/configuration/history inject a fault into every write, one at a time, both modes."""
+    fam, cfg, h = job["family"], tuple(job["cfg"]), job["history"]
+    only = job.get("only")
+    root = _root()
+    mon = lmon.install_write_monitor()
+    stats = {"runs": 0, "reached": 0, "reported_by_exception": 0, "reported_by_diagnostic": 0, "not_reported": 0, "lost_later": 0, "by_sig": {}}
+    fails = []
+
+    def one(mode, n):
+        r = lmon.run_fault_history(fam, cfg, h, root, mode, n)
+        stats["runs"] += 1
+        if r["outcome"] != "no-fault-reached":
+            stats["reached"] += 1
+            f = r["fault"]
+            if not f["reported"]:
+                stats["not_reported"] += 1
+            elif f["raised"]:
+                stats["reported_by_exception"] += 1
+            else:
+                stats["reported_by_diagnostic"] += 1
+            if r["lost_later"]:
+                stats["lost_later"] += 1
+        for f in r["failures"]:
+            if "write-failure-not-reported" not in f["signature"]:
+                continue            # ordinary read failures are the business of the fault-free histories
+            stats["by_sig"][f["signature"]] = stats["by_sig"].get(f["signature"], 0) + 1
+            _keep(fails, f["signature"], f["detail"], {"kind": "fault", "family": fam, "cfg": list(cfg), "history": h, "mode": mode,
+                                                       "n": n if mode == "raise" else os.path.relpath(n, os.path.join(root, "ws"))}, True)
+        return r
+
+    if only:
+        mode, n = only
+        one(mode, n if mode == "raise" else os.path.join(root, "ws", n))
+        return stats, fails
+    p0 = len(mon.paths)
+    one("raise", 10 ** 9)           # fault-free pass: learns how many writes the history makes and where
+    paths = list(mon.paths[p0:])
+    for n in range(1, min(len(paths), 8) + 1):
+        one("raise", n)
+    done = set()
+    for p in paths:
+        if p in done or len(done) >= 6:
+            continue
+        done.add(p)
+        one("block", p)
+    return stats, fails
+
+
+def real_job(job):
+    """Child: one real analysis with all monitors on, then live / restored / saved comparison."""
+    import time
+    lang, sub, p2, tight, progs = job["lang"], job["sub"], job["p2"], job["tight"], job["programs"]
+    wm = lmon.install_write_monitor()
+    cs = lmon.install_contracts()
+    rec = lmon.install_save_recorder()
+    if tight:
+        from lian.config import config
+        for k, v in TIGHT_REAL.items():
+            setattr(config, k, v)
+    sc = _root()
+    src = os.path.join(sc, "src")
+    os.makedirs(src, exist_ok=True)
+    for n, t in progs.items():
+        with open(os.path.join(src, n), "w") as f:
+            f.write(t)
+    st = lianrun.write_settings(os.path.join(sc, "settings"), entry="- method_list: ['%unit_init', 'main', 'g']\n")
+    ws = os.path.join(sc, "out")
+    import lian.main as lmain
+    sys.argv = lianrun.lian_argv(sub, lang, [src], ws, st, ["-q"] + (["--enable-p2"] if p2 else []))
+    app = lmain.Lian()
+    err = None
+    t0 = time.time()
+    try:
+        app.run()
+    except SystemExit as e:
+        err = {"type": "SystemExit", "where": "?", "msg": str(e.code)}
+    except Exception as e:
+        err = {"type": type(e).__name__, "where": lmon.innermost_lian_frame(e.__traceback__), "msg": str(e)[:200]}
+    res = {"err": err, "wall": time.time() - t0, "saves": rec.count, "uncanon": rec.uncanon, "contracts": cs.evaluated,
+           "contract_failures": cs.failures[:10], "writes": wm.calls,
+           "swallowed": [{"file": os.path.basename(f["path"]), "type": f["type"], "message": f["message"][:160], "reported": f["reported"]} for f in wm.swallowed],
+           "cmp": None}
+    if err is None and app.loader is not None:
+        res["cmp"] = lmon.compare_live_and_restored(app, rec, wm)
+    elif err is not None and wm.failed and err["where"].startswith("data_model.py:load"):
+        f = wm.failed[-1]
+        res["write_failure_crash"] = {"file": os.path.basename(f["path"]), "type": f["type"], "message": f["message"][:160],
+                                      "loader": os.path.basename(f["path"]).split(".")[0]}
+    return res
+
+
+# ---------------------------------------------------------------------------------------------------
+# parent
 
 def chunked(seq, n):
     k = max(1, (len(seq) + n - 1) // n)
     return [seq[i:i + k] for i in range(0, len(seq), k)]
 
 
-def absorb(chk, r, label):
+def note_sigs(chk, by_sig):
+    tab = chk.extra.setdefault("failing_cases_by_signature", {})
+    for sig, n in by_sig.items():
+        tab[sig] = tab.get(sig, 0) + n
+
+
+def absorb_history(chk, r, label):
     if r.status != "ok":
         chk.note_inconclusive(f"{label} worker {r.status}: {r.value if r.status != 'timeout' else ''} {r.log_text(600)}")
         return
@@ -138,85 +324,266 @@ def absorb(chk, r, label):
     for k, v in st["sources"].items():
         chk.count(f"reads served from {k}", v)
     chk.count("histories ending with >= 2 bundle files", st["multi_bundle"])
-    for sig, n in st["by_sig"].items():
-        chk.extra.setdefault("failing_histories_by_signature", {})
-        chk.extra["failing_histories_by_signature"][sig] = chk.extra["failing_histories_by_signature"].get(sig, 0) + n
+    chk.count("saves that overflowed MAX_ROWS and exported by themselves", st["auto_exports"])
+    for k, n in st.get("contracts", {}).items():
+        chk.count("post-condition evaluated: " + k, n)
+    note_sigs(chk, st["by_sig"])
     for sig, detail, case in fails:
         chk.fail(sig, detail, case)
+
+
+def absorb_map(chk, r):
+    if r.status != "ok":
+        chk.note_inconclusive(f"map worker {r.status}: {r.value if r.status != 'timeout' else ''} {r.log_text(600)}")
+        return
+    st, fails = r.value
+    chk.evaluated(st["histories"])
+    chk.count("map loaders: histories run", st["histories"])
+    chk.count("map loaders: reads compared with the model", st["reads"])
+    note_sigs(chk, st["by_sig"])
+    for sig, detail, case in fails:
+        chk.fail(sig, detail, case)
+
+
+def absorb_fault(chk, r):
+    if r.status != "ok":
+        chk.note_inconclusive(f"fault worker {r.status}: {r.value if r.status != 'timeout' else ''} {r.log_text(600)}")
+        return
+    st, fails = r.value
+    chk.evaluated(st["runs"])
+    chk.count("fault injection: histories run", st["runs"])
+    chk.count("fault injection: write failures that happened", st["reached"])
+    chk.count("fault injection: reported by an exception reaching the caller", st["reported_by_exception"])
+    chk.count("fault injection: reported by a printed diagnostic carrying the message", st["reported_by_diagnostic"])
+    chk.count("fault injection: not reported", st["not_reported"])
+    chk.count("fault injection: a later read returned other content (observation)", st["lost_later"])
+    note_sigs(chk, st["by_sig"])
+    for sig, detail, case in fails:
+        chk.fail(sig, detail, case)
+
+
+def absorb_real(chk, r):
+    job = r.item
+    label = "%s %s%s%s" % (job["lang"], job["sub"], " --enable-p2" if job["p2"] else "", " tight" if job["tight"] else "")
+    case = {"kind": "real", "lang": job["lang"], "sub": job["sub"], "p2": job["p2"], "tight": job["tight"], "programs": job["programs"]}
+    if r.status != "ok":
+        chk.note_inconclusive(f"real run {label}: {r.status} {r.value if r.status != 'timeout' else ''} {r.log_text(600)}")
+        return
+    v = r.value
+    chk.evaluated(1)
+    runs = chk.extra.setdefault("real_runs", [])
+    entry = {"run": label, "pipeline_error": v["err"], "saves_recorded": v["saves"], "feather_writes": v["writes"],
+             "writes_swallowed_by_DataModel.save": v["swallowed"]}
+    chk.count("real runs: GeneralLoader.save calls recorded", v["saves"])
+    chk.count("real runs: exceptions swallowed by DataModel.save", len(v["swallowed"]))
+    for k, n in v["contracts"].items():
+        chk.count("post-condition evaluated: " + k, n)
+    for name, detail in v["contract_failures"]:
+        chk.fail("contract:" + name, f"{label}: {detail}", case)
+    for s in v["swallowed"]:
+        if not s["reported"]:
+            chk.fail("%s:export:write-failure-not-reported[%s]" % (s["file"].split(".")[0], s["type"]),
+                     f"{label}: the write of {s['file']} failed ({s['message']}) and DataModel.save swallowed it without a diagnostic", case)
+    if v.get("write_failure_crash"):
+        w = v["write_failure_crash"]
+        fam = "StateFlowGraphLoader" if w["loader"].startswith("state_flow_graph") else w["loader"]
+        chk.count("real runs: analysis stopped when a bundle whose write had failed was read back", 1)
+        chk.fail("%s:save-export:feather-write-failed[%s]" % (fam, w["type"]),
+                 f"{label}: the write of {w['file']} failed ({w['message']}); once the bundle left the bundle cache the analysis itself "
+                 f"died reading it back: {v['err']}", case)
+    elif v["err"] is not None:
+        chk.count("real runs: pipeline stopped early for another reason (not judged)", 1)
+    c = v["cmp"]
+    if c is not None:
+        chk.count("real runs compared", 1)
+        chk.count("real runs: items compared (saved vs live loader)", c["items_live"])
+        chk.count("real runs: items compared (saved vs fresh restored loader)", c["items_fresh"])
+        chk.count("real runs: items looked up in index + bundle files", c["items_files"])
+        chk.count("real runs: non-bundle loaders compared (live vs restored)", c["maps_compared"])
+        chk.count("real runs: bundle files written", c["bundles"])
+        entry["items"] = c["items_live"]
+        entry["map_loader_differences_live_vs_restored"] = c.get("map_differences", [])
+        chk.count("real runs: non-bundle loaders whose restored data differ (observation, judged by the map histories)", len(c.get("map_differences", [])))
+        entry["loaders"] = {k: x for k, x in c["loaders"].items() if x["items"]}
+        by = {}
+        for sig, detail, extra in c["failures"]:
+            by[sig] = by.get(sig, 0) + 1
+            if by[sig] <= 2:
+                chk.fail(sig, f"{label}: {detail}", case)
+        note_sigs(chk, by)
+        chk.nontrivial_case(("real", label))
+    runs.append(entry)
 
 
 def replay(chk, path):
     with open(path) as f:
         case = json.load(f)["case"]
-    if case["kind"] == "history":
-        job = {"family": case["family"], "cfg": case["cfg"], "histories": [case["history"]]}
-        r = forkpool.run_one(history_job, job, timeout=300)
-        absorb(chk, r, "replay")
-        chk.nontrivial_case("replay-a"); chk.nontrivial_case("replay-b")
-        chk.sample(case)
+    kind = case["kind"]
+    if kind == "history":
+        r = forkpool.run_one(history_job, {"family": case["family"], "cfg": case["cfg"], "histories": [case["history"]]}, timeout=300)
+        absorb_history(chk, r, "replay")
+    elif kind == "map":
+        r = forkpool.run_one(map_job, {"family": case["family"], "histories": [case["history"]]}, timeout=300)
+        absorb_map(chk, r)
+    elif kind == "fault":
+        r = forkpool.run_one(fault_job, {"family": case["family"], "cfg": case["cfg"], "history": case["history"],
+                                         "only": [case["mode"], case["n"]]}, timeout=300)
+        absorb_fault(chk, r)
+    elif kind == "real":
+        r = forkpool.run_one(real_job, {"lang": case["lang"], "sub": case["sub"], "p2": case["p2"], "tight": case["tight"],
+                                        "programs": case["programs"]}, timeout=600)
+        r.item = {"lang": case["lang"], "sub": case["sub"], "p2": case["p2"], "tight": case["tight"], "programs": case["programs"]}
+        absorb_real(chk, r)
     else:
-        chk.note_inconclusive(f"unknown case kind {case.get('kind')}")
+        chk.note_inconclusive(f"unknown case kind {kind}")
+    chk.nontrivial_case("replay-a")
+    chk.nontrivial_case("replay-b")
+    chk.sample(case)
 
 
 def main():
     if "VERIF_SCRATCH" not in os.environ and os.path.isdir("/dev/shm") and os.access("/dev/shm", os.W_OK):
         os.environ["VERIF_SCRATCH"] = "/dev/shm"      # thousands of tiny workspaces: a memory file system halves the wall time
-    lianrun.prepare_zygote(warm=False)
+    replaying = os.environ.get("VERIF_REPLAY")
+    is_real_replay = False
+    if replaying:
+        try:
+            with open(replaying) as f:
+                is_real_replay = json.load(f)["case"].get("kind") == "real"
+        except Exception:
+            pass
+    lianrun.prepare_zygote(warm=(not replaying) or is_real_replay)
     chk = common.Check(PROP, rule=(
         "per loader family: all id-symmetry-reduced histories of <= d operations over save(id, content in {A,B,empty}) / "
         "get(id) / export / export_indexing / restore-into-a-fresh-Loader on ids {1,2,3} under the listed cache/bundle "
-        "configurations, plus seeded random histories of 6-24 operations over the 36-point configuration grid; every history "
-        "is closed by read-all, export, export_indexing, an independent pandas read of index and bundle files, read-all and a "
-        "fresh Loader(options).restore() read-all. distinct_nontrivial = distinct (family, configuration, history) triples "
-        "with >= 1 save and >= 1 compared read"))
-    if os.environ.get("VERIF_REPLAY"):
-        replay(chk, os.environ["VERIF_REPLAY"])
+        "configurations, plus seeded random histories of 6-24 operations over the 36-point configuration grid "
+        "(item cache 1..3 x bundle cache 1..2 x MAX_ROWS 3..8); every history is closed by read-all, export, export_indexing, an "
+        "independent pandas read of index and bundle files, read-all and a fresh Loader(options).restore() read-all. "
+        "distinct_nontrivial = (family, configuration, history) triples run (each has >= 1 compared read) + real runs compared"))
+    if replaying:
+        replay(chk, replaying)
         sys.exit(chk.finish())
     thorough = chk.tier == "thorough"
     rng = random.Random(chk.seed)
     reps, rest = representatives()
     jobs = []
+    # ---- (e) real analyses (they take longest per job, so they are queued first) ----
+    combos = [("python", "run", False, False, 1), ("python", "run", True, False, 1), ("python", "semantic", False, True, 1),
+              ("javascript", "run", False, True, 1), ("java", "run", True, False, 1), ("python", "semantic", True, True, 2)]
+    if thorough:
+        combos = [(lang, sub, p2, tight, k) for lang in ("python", "javascript", "java") for sub in ("run", "semantic")
+                  for p2 in (False, True) for tight in (False, True) for k in (1, 2)]
+    for lang, sub, p2, tight, k in combos:
+        jobs.append({"kind": "real", "lang": lang, "sub": sub, "p2": p2, "tight": tight,
+                     "programs": (REAL_PROGRAMS if k == 1 else REAL_PROGRAMS_2)[lang]})
+    # ---- (a) bounded exhaustive ----
     d_all, d_deep = (3, 4) if not thorough else (4, 5)
     h_all = enum_histories(d_all)
     h_small = enum_histories(d_all, ("A", "B"), 2)
+    h_noempty = enum_histories(d_all, ("A", "B"), 3) + [h for h in enum_histories(d_all - 1) if any(op[-1] == "E" for op in h)]
     h_deep = [h for h in enum_histories(d_deep, ("A", "B"), 2) if len(h) == d_deep]   # one step deeper, two contents, two ids
     plan = []
     for fam in reps if not thorough else list(lmon.families()):
-        plan.append((fam, CFG_TIGHT, h_all, 2 if not thorough else 8))
-        plan.append((fam, CFG_LOOSE, h_small if not thorough else h_all, 1 if not thorough else 8))
+        # the empty content exercises GeneralLoader code shared by all families: full depth on the DEEP families (and on all in
+        # thorough), one step shallower on the others
+        plan.append((fam, CFG_TIGHT, h_all if (thorough or fam in DEEP) else h_noempty, 2 if not thorough else 8))
+        if thorough or fam in DEEP:
+            plan.append((fam, CFG_LOOSE, h_small if not thorough else h_all, 2 if not thorough else 8))
         if thorough:
             plan.append((fam, CFG_MID, h_small, 2))
-    for fam in (DEEP[:2] if not thorough else DEEP):
+    for fam in (DEEP[:1] if not thorough else DEEP):
         for cfg in ([CFG_TIGHT] if not thorough else [CFG_TIGHT, CFG_MID2]):
-            plan.append((fam, cfg, h_deep, 6 if not thorough else 32))
+            plan.append((fam, cfg, h_deep, 8 if not thorough else 32))
     for fam, cfg, hs, parts in plan:
         for c in chunked(hs, parts):
-            jobs.append({"label": "exhaustive", "family": fam, "cfg": cfg, "histories": c})
-    # smoke histories for the instances not enumerated + random histories for every instance
+            jobs.append({"kind": "gl", "label": "exhaustive", "family": fam, "cfg": cfg, "histories": c})
+    chk.extra["exhaustive_plan"] = [{"family": f, "cfg": list(c), "histories": len(h)} for f, c, h, _ in plan]
+    # ---- (b) random histories for every instance, smoke histories for the instances not enumerated ----
     n_rand = 24 if not thorough else 600
     for fam in lmon.families():
-        hs = []
-        for _ in range(n_rand):
-            hs.append(random_history(rng, rng.randint(6, 24)))
+        hs = [random_history(rng, rng.randint(6, 24)) for _ in range(n_rand)]
         cfgs = [rng.choice(GRID) for _ in range(4 if not thorough else 24)]
         for cfg, c in zip(cfgs, chunked(hs, len(cfgs))):
-            jobs.append({"label": "random", "family": fam, "cfg": cfg, "histories": c})
+            jobs.append({"kind": "gl", "label": "random", "family": fam, "cfg": cfg, "histories": c})
     if not thorough:
-        smoke = enum_histories(2) + [h for h in h_all if len(h) == 3][::7]
+        smoke = enum_histories(2) + [h for h in h_all if len(h) == 3][::23]
         for fam in rest:
-            jobs.append({"label": "smoke", "family": fam, "cfg": CFG_TIGHT, "histories": smoke})
-    jobs.sort(key=lambda j: -len(j["histories"]))
-    for r in forkpool.run_jobs(history_job, jobs, timeout=600 if not thorough else 3000, tag="c15"):
-        absorb(chk, r, r.item["label"])
-        if r.status == "ok":
-            st, _ = r.value
-            for n in range(st["histories"]):
-                chk.nontrivial_case((r.item["family"], tuple(r.item["cfg"]), r.item["label"], id(r.item), n))
+            jobs.append({"kind": "gl", "label": "smoke", "family": fam, "cfg": CFG_TIGHT, "histories": smoke})
+    # ---- (c) map loaders ----
+    for fam, mf in lmon.map_families().items():
+        nid = 1 if mf.single else 3
+        d = 3 if not thorough else 4
+        hs = enum_histories(d, ("A", "B"), nid if thorough else min(nid, 2), extra_ops=("export", "restore"), reads=False)
+        if mf.empties:
+            hs += [h for h in enum_histories(d - 1, ("A", "B", "E"), nid, extra_ops=("export", "restore"), reads=False) if any(op[-1] == "E" for op in h)]
+        hs += [random_history_map(rng, rng.randint(5, 12), mf) for _ in range(10 if not thorough else 200)]
+        for c in chunked(hs, 1 if not thorough else 4):
+            jobs.append({"kind": "map", "family": fam, "histories": c})
+    # ---- (d) fault injection ----
+    for fam in reps if not thorough else list(lmon.families()):
+        for cfg in (CFG_TIGHT, CFG_LOOSE):
+            for h in FAULT_HISTORIES:
+                jobs.append({"kind": "fault", "family": fam, "cfg": cfg, "history": h})
+
+    def weight(j):
+        if j["kind"] == "real":
+            return 10 ** 6
+        if j["kind"] == "fault":
+            return 400
+        return len(j["histories"]) * (1 if j["kind"] == "gl" else 0.7)
+    jobs.sort(key=lambda j: -weight(j))
+
+    def dispatch(j):
+        return {"gl": history_job, "map": map_job, "fault": fault_job, "real": real_job}[j["kind"]](j)
+    n_case = 0
+    for r in forkpool.run_jobs(dispatch, jobs, timeout=900 if not thorough else 3000, tag="c15"):
+        k = r.item["kind"]
+        if k == "gl":
+            absorb_history(chk, r, r.item["label"])
+            if r.status == "ok":
+                for n in range(r.value[0]["histories"]):
+                    n_case += 1
+                    chk.nontrivial_case(n_case)
+        elif k == "map":
+            absorb_map(chk, r)
+        elif k == "fault":
+            absorb_fault(chk, r)
+        else:
+            absorb_real(chk, r)
     chk.exhaustive = True
-    chk.extra["families"] = list(lmon.families())
-    chk.sample({"family": "CFGLoader", "cfg": list(CFG_TIGHT), "history": [["save", 1, "A"], ["get", 1], ["save", 1, "B"], ["export"], ["index"], ["restore"]],
-                "meaning": "cfg = (item-cache capacity, bundle-cache capacity, config.MAX_ROWS); contents A/B/E are built by lib/monitors/loader.py"})
-    chk.require("reads compared with the model", 1000)
+    chk.extra["families"] = {"bundle loaders": list(lmon.families()), "map loaders": list(lmon.map_families())}
+    chk.sample({"kind": "history", "family": "CFGLoader", "cfg": list(CFG_TIGHT),
+                "history": [["save", 1, "A"], ["get", 1], ["save", 1, "B"], ["export"], ["index"], ["restore"]],
+                "meaning": "cfg = (item-cache capacity, bundle-cache capacity, config.MAX_ROWS); contents A (4 rows) / B (2 rows) / E (no rows) "
+                           "are built by lib/monitors/loader.py from the repo's own classes"})
+    chk.sample({"kind": "fault", "family": "StmtStatusLoader[p3]", "cfg": list(CFG_LOOSE), "history": FAULT_HISTORIES[0], "mode": "raise", "n": 1,
+                "meaning": "the n-th DataFrame.to_feather of the history (+ closing export, export_indexing) raises OSError(ENOSPC)"})
+    chk.sample({"kind": "real", "lang": "python", "sub": "semantic", "p2": True, "tight": True, "tight_config": TIGHT_REAL})
+    floor = (lambda q, t: q if not thorough else t)
+    chk.require("reads compared with the model", floor(25000, 1000000))
+    chk.require("histories ending with >= 2 bundle files", floor(1000, 20000))
+    for src in ("item-cache", "active-bundle", "bundle-cache", "bundle-file"):
+        chk.require(f"reads served from {src}", floor(3000, 50000))
+    chk.require("map loaders: reads compared with the model", floor(2000, 20000))
+    chk.require("fault injection: write failures that happened", floor(100, 300))
+    chk.require("real runs compared", floor(3, 20))
+    chk.require("real runs: items compared (saved vs fresh restored loader)", floor(200, 2000))
+    chk.require("post-condition evaluated: LRUCache: linked list == dict", floor(50000, 1000000))
+    chk.require("post-condition evaluated: LRUCache.get: a hit returns the last put, a miss None", floor(10000, 200000))
+    chk.require("post-condition evaluated: GeneralLoader.get_raw_item_by_id: an indexed item is found", floor(25000, 500000))
+    chk.assumptions += [
+        "content is compared through canonical forms computed from the objects (dataclass fields, graph edges, table rows): numbers by "
+        "Python equality (3.0 == 3), missing values (None/NaN) dropped from table rows, sets sorted; a read returning None means 'no item'; "
+        "an empty item is not 'no item', and a plain [] where a graph/dict/space object is due is not the item",
+        "State.value is text by the definition of the storage format (to_dict stores str(value)); the unit_id/method_id column of a row is "
+        "the key the item was saved under; a missing CFG / symbol-graph edge label is stored as 0; collections the loaders declare as sets "
+        "are compared as sets",
+        "map loaders whose save() defines an empty collection as 'nothing to record' (one-to-many maps, methods in class) are not given "
+        "empty contents; reverse look-ups (many -> one) are not part of the item and are not judged",
+        "a failed write counts as reported when an exception reaches the caller or the failure's own message appears on stdout/stderr",
+        "restore expectations: the files promise what was exported before the last export_indexing; items saved but not exported at "
+        "that moment are not judged in the restored loader",
+    ]
     sys.exit(chk.finish())
 
 
